@@ -198,7 +198,7 @@ var cfgC13 = reg(PropCfg{
 	Profile: &Profile{PReimport: 3, Weights: map[string]int{EntRaise: 8, EntDecide: 12, EntWL: 6, WrkReg: 5, WrkRec: 9, WrkPur: 4, BcnReg: 5, BcnRec: 8, BcnPur: 4,
 		StrCreate: 8, StrClaim: 8, StrTopUp: 4, StrUpdate: 4, StrCancel: 4, ParamsEnt: 2, ParamsWrk: 2, ParamsBcn: 2, ParamsStr: 2, BankSend: 2, FeeGrantOp: 3},
 		MinBlocks: 8, MaxBlocks: 35, MaxTxs: 5, MaxOps: 2, PUpper: 8, PActor: 30, PNamed: 12, PFault: 6, PExec: 14, PGovParams: 6, PBadRef: 3,
-		TinyLimits: true, MultiPct: 10, PFeePayer: 5, PForward: 40, PRetry: 5, PGranter: 12, PExecTail: 10, PEscrow: 5, RegDenomMix: true, LockedActors: true},
+		TinyLimits: true, MultiPct: 15, PFeePayer: 5, PForward: 40, PRetry: 5, PGranter: 12, PExecTail: 25, PEscrow: 5, RegDenomMix: true, LockedActors: true, PAmino: 15, PTamper: 35},
 	Rule: "history containing >=1 attempt by an unentitled party on a live target (the same message would be meaningful for the entitled party); distinct by scenario hash",
 	NonTrivial: func(w *World) bool { return w.Classes["c13.attempt-on-live-target"] > 0 },
 	MinClasses: map[string]int{"c13.attempt-on-live-target": 200, "c13.entitled-control-ok": 500, "c13.attempt.exec-without-grant": 20, "c13.attempt.names-other-account": 20, "c13.control-via-grant": 3},
